@@ -21,7 +21,7 @@ fn line_break(le: LineEnding) -> &'static str {
 
 pub fn render(out: &mut Out, tier: &Tier, rng: &mut Rng) {
     // (a) small texts, exhaustively: every display span x every single highlight
-    let small: Vec<String> = all_texts_up_to(&['a', '\t', '\n', 'é'], if tier.thorough { 4 } else { 3 });
+    let small: Vec<String> = all_texts_up_to(&['a', '\t', '\n', 'é', '\u{301}'], if tier.thorough { 4 } else { 3 });
     for text in &small {
         for &le in &[LineEnding::Lf] {
             let m = metrics(le, 4);
@@ -42,14 +42,14 @@ pub fn render(out: &mut Out, tier: &Tier, rng: &mut Rng) {
         }
     }
     // (b) multi-line samples with 1-3 highlights, all line endings
-    let n = if tier.thorough { 40000 } else { 3000 };
+    let n = if tier.thorough { 40000 } else { 8000 };
     for _ in 0..n {
         let le = *rng.pick(LINE_ENDINGS);
         let nlines = 1 + rng.below(5);
         let mut text = String::new();
         for l in 0..nlines {
             let len = rng.below(5);
-            for _ in 0..len { text.push(*rng.pick(&['a', 'b', ' ', '\t', 'é', '世', 'a', 'b'])); }
+            for _ in 0..len { text.push(*rng.pick(&['a', 'b', ' ', '\t', 'é', '世', 'a', 'b', '\u{301}', '\u{200B}', '\r'])); }
             if l + 1 < nlines || rng.chance(1, 4) { text.push_str(line_break(le)); }
         }
         let tab = 1 + rng.below(8) as u8;
